@@ -478,6 +478,53 @@ def reopen_after_dead_peer(rep, T):
     rep.case(('reopen-after-dead-peer', T), True, sample=replay)
 
 
+def reopen_other_limits_one(seed):
+    """life 1 against a broker that tunes down (channel_max 2, frame_max 4096), close(), life 2 of the same object against a
+    broker offering 2047 / 131072: the second life negotiates on its own - nothing of the first one caps it"""
+    import amqpstorm
+    policy = refbroker.Policy()
+    policy.channel_max = 2
+    policy.frame_max = 4096
+    out = {}
+
+    def scenario(ctx):
+        conn = amqpstorm.Connection('localhost', 'guest', 'guest', heartbeat=0, timeout=5)
+        a = [conn.channel(rpc_timeout=5) for _ in range(2)]
+        out['life1'] = (conn.max_allowed_channels, conn.max_frame_size)
+        conn.close()
+        policy.channel_max = 2047
+        policy.frame_max = 131072
+        conn.open()
+        opened = 0
+        try:
+            for _ in range(3):
+                conn.channel(rpc_timeout=5)
+                opened += 1
+        except amqpstorm.AMQPError as why:
+            out['error'] = repr(why)[:80]
+        out['opened'] = opened
+        b = ctx.net.brokers[-1]
+        out['tune_ok'] = (b.tune_ok.channel_max, b.tune_ok.frame_max) if b.tune_ok else None
+        out['life2'] = (conn.max_allowed_channels, conn.max_frame_size)
+        conn.close()
+    ctx = vrt.run_scenario(scenario, refbroker.factory(policy), seed=seed, p_preempt=0.1, fair_time=(seed % 2 == 1), repo_path=str(common.REPO))
+    out['abort'] = ctx.sched.abort_reason
+    return out
+
+
+def reopen_other_limits(rep, rng, n):
+    for _ in range(n):
+        seed = rng.randrange(1 << 30)
+        r = reopen_other_limits_one(seed)
+        replay = {'kind': 'reopen-other-limits', 'seed': seed}
+        rep.case(('reopen-other-limits', seed), True, sample=replay)
+        if r.get('opened') != 3 or r.get('tune_ok') != (2047, 131072) or r['abort'] != 'all application threads finished':
+            rep.violation('C08/reopened-connection-not-fresh/limits-of-the-previous-life',
+                          'after a life tuned to 2 channels / 4096 bytes the re-opened connection (broker offers 2047 / 131072) answered TuneOk %r, '
+                          'opened %r of 3 channels (%s), limits now %r' % (r.get('tune_ok'), r.get('opened'), r.get('error', r['abort']), r.get('life2')), replay)
+            return
+
+
 def check(rep):
     rng = random.Random(common.seed() * 6151 + 8)
     thorough = rep.tier == 'thorough'
@@ -493,6 +540,7 @@ def check(rep):
     ]
     for T in (2, 4, 10, 60):
         reopen_after_dead_peer(rep, T)
+    reopen_other_limits(rep, rng, 3 if not thorough else 40)
     jobs = []
     import json
     cdir = common.CORPUS / 'C08'
@@ -554,6 +602,12 @@ def check(rep):
 
 
 def replay(data):
+    if data.get('replay', {}).get('kind') == 'reopen-other-limits':
+        r = reopen_other_limits_one(data['replay']['seed'])
+        print(r)
+        bad = r.get('opened') != 3 or r.get('tune_ok') != (2047, 131072)
+        print('VIOLATION reproduced' if bad else 'property holds on this input')
+        return 1 if bad else 0
     if data.get('replay', {}).get('kind') == 'reopen-after-dead-peer':
         rep = common.Report('C08', 'quick')
         reopen_after_dead_peer(rep, data['replay']['T'])
